@@ -21,7 +21,7 @@ import copy
 import dataclasses
 from collections.abc import Iterator
 
-from kopf._cogs.structs import bodies, ephemera, patches
+from kopf._cogs.structs import bodies, ephemera, ids, patches
 from kopf._core.actions import throttlers
 from kopf._core.engines import admission, daemons, indexing
 
@@ -42,6 +42,7 @@ class ResourceMemory:
     # For resuming handlers tracking and deciding on should they be called or not.
     noticed_by_listing: bool = False
     fully_handled_once: bool = False
+    resumed_handlers: set[ids.HandlerId] = dataclasses.field(default_factory=set)  # in this process
 
 
 class ResourceMemories(admission.MemoGetter, daemons.DaemonsMemoriesIterator):
